@@ -21,7 +21,8 @@
 //       -> `c-hex cpp-hex mql-hex py-hex valid=<0|1> ; v ; v ...`
 //          the individual whose matrix genome_(row, category) holds exactly the given genes
 //          (row-major; the symbol of the gene at column c must have category c; the best locus
-//          is [0,0]); built with the public API: i_mep(vector<gene>) for the last column,
+//          is [0,0]; genes with the same symbol key and categories share ONE symbol object, as
+//          genes of a real population share the symbols of the symbol_set); built with the public API: i_mep(vector<gene>) for the last column,
 //          i_mep::replace(locus, gene) for every other locus.  `valid` = i_mep::is_valid().
 //          The individual is remembered (the last 16) for `team` and `stream`.
 //   team <k>
@@ -300,21 +301,35 @@ int main()
         const std::size_t nc = std::stoul(t.at(p++));
         built b;
         std::vector<gene> cells;
+        std::map<std::string, symbol *> interned;
         bool bad = nr == 0 || nc == 0;
         for (std::size_t k = 0; k < nr * nc && !bad; ++k)
         {
           const std::string key = t.at(p++);
-          const cvect c = parse_cats(t.at(p++));
+          const std::string cats_s = t.at(p++);
+          const cvect c = parse_cats(cats_s);
           const double par = verif::from_bits(std::stoull(t.at(p++)));
           const std::size_t na = std::stoul(t.at(p++));
           std::vector<index_t> args;
           for (std::size_t a = 0; a < na; ++a) args.push_back(index_t(std::stoul(t.at(p++))));
-          auto s = make_symbol(key, c);
-          if (!s || s->arity() != na || s->category() != k % nc) { bad = true; break; }
-          gene g(std::pair<symbol *, std::vector<index_t>>(s.get(), args));
-          if (s->terminal()) g.par = par;
+          // as in a symbol_set, equal symbols are ONE object shared by every gene that uses it
+          // (an ephemeral constant keeps its value in the gene, not in the symbol)
+          const std::string ikey = key + "|" + cats_s;
+          symbol *sp = nullptr;
+          if (auto it = interned.find(ikey); it != interned.end())
+            sp = it->second;
+          else
+          {
+            auto s = make_symbol(key, c);
+            if (!s) { bad = true; break; }
+            sp = s.get();
+            interned[ikey] = sp;
+            b.syms.push_back(std::move(s));
+          }
+          if (sp->arity() != na || sp->category() != k % nc) { bad = true; break; }
+          gene g(std::pair<symbol *, std::vector<index_t>>(sp, args));
+          if (sp->terminal()) g.par = par;
           cells.push_back(g);
-          b.syms.push_back(std::move(s));
         }
         if (bad) { std::cout << "bad-op\n"; continue; }
         std::vector<gene> lastcol;
